@@ -233,7 +233,8 @@ class BracedNameToken(XPathToken):
             namespace = ''
         else:
             value = self.parser.next_token.value
-            assert isinstance(value, str)
+            if not isinstance(value, str):
+                raise self.parser.next_token.wrong_syntax()  # e.g. a numeric literal after 'Q{'
             namespace = value + self.parser.advance_until('}')
             namespace = collapse_white_spaces(namespace)
 
